@@ -595,10 +595,13 @@ def verify_unit(unit, use_cache=True):
         covers = [o for o in obs if o["kind"] == "cover"]
         if not covers:
             raise Tooling("unit has no reachability guard (VCOVER/H_END)")
-        vac = [o for o in covers if o["status"] == "SUCCESS"]
-        if vac:
-            raise Tooling("vacuity: unreachable cover(s): %s" % [o["desc"] for o in vac])
         failed = [o for o in obs if o["kind"] not in ("cover", "excluded") and o["status"] == "FAILURE"]
+        vac = [o for o in covers if o["status"] == "SUCCESS"]
+        if vac and not failed:
+            # (a changed tree may both fail obligations and make a cover unreachable: the
+            # failures are reported; vacuity only matters for a run that would otherwise pass)
+            raise Tooling("vacuity: unreachable cover(s): %s" % [o["desc"] for o in vac])
+        res["unreachable_covers"] = [o["desc"] for o in vac]
         if failed:
             res["status"] = "failed"
             # second run with traces for the failed obligations only
